@@ -48,3 +48,13 @@ NATIVE['n_c14_specialize'] = dict(
           'of boundary types and values (about 45 in quick, 80 in thorough), length 3 over 8',
     functions=[('crates/cairo-lang-sierra/src/program_registry.rs', 'impl<TType: GenericType, TLibfunc: GenericLibfunc> ProgramRegistry<TType, TLibfunc>', 'new')],
 )
+NATIVE['n_c14_felt_mutants'] = dict(
+    crate='cairo-lang-starknet-classes',
+    host='crates/cairo-lang-starknet-classes/src/contract_class.rs',
+    harness='native/cairo-lang-starknet-classes/n_c14_felt_mutants.rs',
+    props={'C14'},
+    bound='felt-level mutants (boundary value, +-1, delete, duplicate, truncate) at <= 400 (quick) / 1500 (thorough) positions of the published felts and '
+          'of the decompressed felts of 3 (6) checked-in contract classes, through extract_sierra_program and from_contract_class',
+    functions=[('crates/cairo-lang-starknet-classes/src/contract_class.rs', 'impl ContractClass', 'extract_sierra_program'),
+               ('crates/cairo-lang-starknet-classes/src/felt252_serde.rs', None, 'sierra_from_felt252s')],
+)
